@@ -477,6 +477,14 @@ class Engine:
         cnt = fr.site_counter.get(base, 0)
         fr.site_counter[base] = cnt + 1
         full = base if cnt == 0 else f"{base}@path{cnt}"
+        conj = _conjuncts(goal)
+        if len(conj) > 1:
+            # one obligation per conjunct: smaller queries, sharper diagnostics
+            for k, g in enumerate(conj):
+                o = Obligation(f"{full}[{k}]", st.path, g, kind, getattr(node, "lineno", None))
+                o.fuel = fr.contract.fuel if fr.contract is not None else None
+                fr.obligations.append(o)
+            return o
         o = Obligation(full, st.path, goal, kind, getattr(node, "lineno", None))
         o.fuel = fr.contract.fuel if fr.contract is not None else None
         fr.obligations.append(o)
@@ -496,15 +504,16 @@ class Engine:
         self.stats["quick_time"] += time.time() - t0
         return r != z3.unsat
 
-    def unfold(self, sf, app):
-        """defining equation of a spec function at one ground application"""
+    def unfold(self, sf, app, decide=None):
+        """defining equation of a spec function at one ground application; `decide`
+        (optional) prunes branches whose guard is refuted by the obligation's context"""
         ex = Exec(self, Frame(self, None, None), total=True, specmod=sf.module)
         st = State()
         frame = {}
         for p, tag, a in zip(sf.params, sf.ptags, app.children()):
             frame[p] = V(tag, a)
         st.frames = [frame]
-        body = spec_block(ex, st, sf.node.body)
+        body = spec_block(ex, st, sf.node.body, decide)
         t = SP.coerce(body, sf.rtag) if isinstance(body, V) else None
         if t is None:
             raise Unsupported(f"spec {sf.name} body")
@@ -512,6 +521,35 @@ class Engine:
         if st.path:
             return z3.And(eq, *st.path)
         return eq
+
+    def length_bounds(self, terms):
+        """CPython: every container length fits Py_ssize_t (assumption, listed in evidence)"""
+        out = []
+        seen = set()
+        stack = list(terms)
+        while stack:
+            t = stack.pop()
+            tid = t.get_id()
+            if tid in seen:
+                continue
+            seen.add(tid)
+            if z3.is_app(t):
+                if t.decl().kind() == z3.Z3_OP_SEQ_LENGTH:
+                    out.append(t <= 2 ** 63 - 1)
+                elif t.decl().eq(Py.keys) or t.decl().eq(Py.vals):
+                    x = t.arg(0)
+                    out.append(z3.Implies(Py.is_dict(x), z3.Length(Py.keys(x)) == z3.Length(Py.vals(x))))
+                elif t.decl().eq(S.DGET) or t.decl().eq(S.DHAS):
+                    x = t.arg(0)
+                    out.append(z3.Implies(Py.is_dict(x), z3.Length(Py.keys(x)) == z3.Length(Py.vals(x))))
+                elif t.decl().eq(S.PYLEN):
+                    out.append(z3.And(t >= 0, t <= 2 ** 63 - 1))
+                elif t.decl().kind() == z3.Z3_OP_SEQ_INDEX:
+                    out.append(z3.And(t >= -1, t <= z3.Length(t.arg(0)), z3.Length(t.arg(0)) <= 2 ** 63 - 1))
+                stack.extend(t.children())
+        if out:
+            self.assumptions_used.add("len(x) <= 2**63 - 1 for every container (Py_ssize_t)")
+        return out
 
     def instantiate_axiom(self, ax, app):
         ex = Exec(self, Frame(self, None, None), total=True, specmod=ax.module)
@@ -530,6 +568,7 @@ class Engine:
     def discharge(self, ob, timeout_ms=10000, max_fuel=3):
         t0 = time.time()
         base = list(ob.hyps) + [z3.Not(ob.goal)]
+        base += self.length_bounds(base)
         seen_ids = set()
         seen_apps = set()
         defs = []
@@ -538,6 +577,25 @@ class Engine:
         verdict = "unknown"
         model = None
         reason = ""
+        ctx = z3.Solver()
+        ctx.set("timeout", 50)
+        for f in base:
+            ctx.add(f)
+
+        def decide(c):
+            ctx.push()
+            ctx.add(c)
+            r1 = ctx.check()
+            ctx.pop()
+            if r1 == z3.unsat:
+                return False
+            ctx.push()
+            ctx.add(z3.Not(c))
+            r2 = ctx.check()
+            ctx.pop()
+            if r2 == z3.unsat:
+                return True
+            return None
         for depth in range(fuel + 1):
             s = z3.Solver()
             s.set("timeout", timeout_ms)
@@ -568,10 +626,12 @@ class Engine:
                     new.append(self.instantiate_axiom(ax, app))
                 if sf.opaque:
                     continue
-                new.append(self.unfold(sf, app))
+                new.append(self.unfold(sf, app, decide))
             if not new:
                 break
             defs.extend(new)
+            for d in new:
+                ctx.add(d)
             frontier = self.specs.apps_in(new, seen_ids)
         ob.verdict = verdict
         ob.time = time.time() - t0
@@ -582,6 +642,18 @@ class Engine:
         return verdict
 
 
+def _conjuncts(g):
+    out = []
+    stack = [g]
+    while stack:
+        t = stack.pop()
+        if z3.is_app(t) and t.decl().kind() == z3.Z3_OP_AND:
+            stack.extend(reversed(t.children()))
+        else:
+            out.append(t)
+    return out
+
+
 class _Named:
     def __init__(self, name):
         self.name = name
@@ -589,7 +661,7 @@ class _Named:
         self.bases = []
 
 
-def spec_block(ex, st, stmts):
+def spec_block(ex, st, stmts, decide=None):
     """total, merging evaluation of a spec function body -> V"""
     for idx, s in enumerate(stmts):
         if isinstance(s, ast.Expr) and isinstance(s.value, ast.Constant):
@@ -605,18 +677,21 @@ def spec_block(ex, st, stmts):
         if isinstance(s, ast.If):
             c = S.truthy(ex.one(st, s.test))
             rest = stmts[idx + 1:]
+            cs = z3.simplify(c)
+            known = True if z3.is_true(cs) else (False if z3.is_false(cs) else None)
+            if known is None and decide is not None:
+                known = decide(cs)
+            if known is True:
+                return spec_block(ex, st, list(s.body) + rest, decide)
+            if known is False:
+                return spec_block(ex, st, list(s.orelse) + rest, decide)
             st_a = st.fork()
             st_b = st.fork()
-            a = spec_block(ex, st_a, list(s.body) + rest)
-            b = spec_block(ex, st_b, list(s.orelse) + rest)
+            a = spec_block(ex, st_a, list(s.body) + rest, decide)
+            b = spec_block(ex, st_b, list(s.orelse) + rest, decide)
             # facts gathered in either branch (pyeq axioms) are unconditional truths
             for extra in st_a.path[len(st.path):] + st_b.path[len(st.path):]:
                 st.path.append(extra)
-            cs = z3.simplify(c)
-            if z3.is_true(cs):
-                return a
-            if z3.is_false(cs):
-                return b
             return ex.ite(c, a, b)
         if isinstance(s, ast.Assert):
             continue
